@@ -448,7 +448,7 @@ class C11(Prop):
                                    features=feats | {"dtype:integer-canvas-raises-" + model["raises"] + "(not compared)"})
                 feats.add("dtype:clash-raises-" + model["raises"])
                 if DTYPE_CLASH_IN_SCOPE:
-                    spec = {"fields": "one merged field per name"}
+                    spec = {"expected": "one merged field per name, no exception"}
                 else:
                     hyp = False  # no statement of the property about this call; the model's error is compared
         meta_i = meta_s = None
@@ -465,6 +465,17 @@ class C11(Prop):
         return outcome(impl, {"result": model, "inputs_unchanged": True, "meta": meta_s},
                        {"result": key(spec), "inputs_unchanged": True, "meta": meta_s},
                        spec_ok=spec_ok, model_ok=model_ok, hyp=hyp, features=feats)
+
+    def known(self, case, out):
+        # only reachable with DTYPE_CLASH_IN_SCOPE = True: the ValueError on one field name with two dtypes
+        if case.get("kind") == "structured":
+            by_name = {}
+            for a in case["arrays"]:
+                for f in a["fields"]:
+                    by_name.setdefault(f["name"], set()).add(f.get("dtype", "f8"))
+            if any(len(v) > 1 for v in by_name.values()):
+                return "C11-structured-dtype-clash"
+        return None
 
     def shrink(self, case):
         arrs = case["arrays"]
